@@ -1379,6 +1379,14 @@ func (fr *Frame) havocLoop(l *loop, st *State) []string {
 					// pointer arguments: pointees may change
 					for _, a := range com.Args {
 						fr.havocTarget(a, cells, heaps)
+						// map and slice arguments are references to their entries / elements
+						switch u := under(a.Type()).(type) {
+						case *types.Map:
+							dk, vk := c.regMap(c.sortOf(u.Key()), c.sortOf(u.Elem()))
+							heaps[dk], heaps[vk] = true, true
+						case *types.Slice:
+							heaps[c.regElem(c.sortOf(u.Elem()))] = true
+						}
 					}
 					if !com.IsInvoke() {
 						// receiver passed as first arg already
